@@ -121,6 +121,92 @@ theorem C01_after_any_history (hist : List (Pool.Op κ)) (k : κ) (w : Option Na
   rw [e1, e2, (C01_change_resets _ k w).1]
   exact C01_window p.ws h i j
 
+/-- **`UpsertServer` with any number of `Weight` options.**  A call with no or one valid option is the `upsert` of the history
+theorems; a call that succeeds resets the iterator whatever its options; a call that **fails** (a negative weight after `m` valid
+ones) adds no server, leaves the iterator where it was, and — on an existing server — leaves the last weight written before the
+failure in the pool (`roundrobin/rr.go:200-208`: the error is returned before `resetState()`).  After such a call the pool's
+weights have changed without a reset: `C01_window` is not claimed for the selections that follow it (the correspondence run and
+the window monitor exercise them; a proof for arbitrary iterator positions is future work, see DESIGN §6 C01). -/
+theorem C01_upsert_options (p : Pool κ) (k : κ) (xs : List Int) :
+    (p.upsertOpts k [] = (p.upsert k none, true))
+    ∧ (∀ w : Nat, p.upsertOpts k [(w : Int)] = (p.upsert k (some w), true))
+    ∧ ((p.upsertOpts k xs).2 = true → (p.upsertOpts k xs).1.it = It.reset)
+    ∧ ((p.upsertOpts k xs).2 = false →
+        (p.upsertOpts k xs).1.it = p.it ∧ (p.upsertOpts k xs).1.keys = p.keys
+        ∧ (p.upsertOpts k xs).1.ws.length = p.ws.length
+        ∧ ∀ j, p.find k ≠ some j → (p.upsertOpts k xs).1.ws.getD j 0 = p.ws.getD j 0) := by
+  refine ⟨?_, ?_, ?_, ?_⟩
+  · unfold Pool.upsertOpts Pool.upsert
+    cases h : p.find k with
+    | some i =>
+      simp only [Pool.applyWeights, if_true]
+      have : p.ws.set i (p.ws.getD i 0) = p.ws := by
+        apply List.ext_getElem (by simp)
+        intro n h1 h2
+        by_cases hn : i = n
+        · subst hn; simp [List.getD_eq_getElem?_getD, List.getElem?_eq_getElem (by simpa using h1)]
+        · simp [List.getElem_set, hn]
+      simp only [List.getD_eq_getElem?_getD] at this ⊢
+      simp [this]
+    | none => simp [Pool.applyWeights]
+  · intro w
+    unfold Pool.upsertOpts Pool.upsert
+    have hw : ¬ ((w : Int) < 0) := by omega
+    cases h : p.find k with
+    | some i => simp [Pool.applyWeights, hw]
+    | none => simp [Pool.applyWeights, hw]
+  · unfold Pool.upsertOpts
+    cases h : p.find k with
+    | some i => simp only; split <;> simp_all
+    | none => simp only; split <;> simp_all
+  · unfold Pool.upsertOpts
+    cases h : p.find k with
+    | some i =>
+      simp only; split
+      · simp_all
+      · intro _
+        refine ⟨rfl, rfl, by simp, ?_⟩
+        intro j hj
+        have : i ≠ j := fun e => hj (by rw [e])
+        simp [List.getD_eq_getElem?_getD, List.getElem?_set, this]
+    | none =>
+      simp only; split
+      · simp_all
+      · intro _; exact ⟨rfl, rfl, rfl, fun _ _ => rfl⟩
+
+/-- `nextFrom` / `nextServerFrom` (what the driver runs) is `next` / `nextServer` (what the theorems are about) whenever `next`
+does not run out of fuel — by `C01_window`'s fuel lemma that is every position reached from a reset. -/
+theorem C01_nextFrom_eq_next (ws : List Nat) (s : It) (k : Nat) (h : (next ws s).1 ≠ .outOfFuel) :
+    nextFrom ws (k + 1) s = next ws s := by
+  unfold nextFrom
+  split
+  · rename_i s' heq; rw [heq] at h; exact absurd rfl h
+  · rfl
+
+/-- the weight a failed call leaves behind is the last valid option before the invalid one -/
+theorem C01_failed_upsert_weight (w : Nat) (ys : List Nat) (x : Int) (hx : x < 0) (zs : List Int) :
+    Pool.applyWeights w (ys.map (fun y : Nat => (y : Int)) ++ x :: zs) = ((ys.getLast?).getD w, false) := by
+  induction ys generalizing w with
+  | nil => simp [Pool.applyWeights, hx]
+  | cons y ys ih =>
+    have hy : ¬ ((y : Int) < 0) := by omega
+    simp only [List.map_cons, List.cons_append, Pool.applyWeights, hy, if_false, Int.toNat_natCast]
+    rw [ih]
+    cases ys with
+    | nil => simp
+    | cons y' t =>
+      have : ((y' :: t).getLast?).isSome := by simp [List.getLast?_isSome]
+      obtain ⟨v, hv⟩ := Option.isSome_iff_exists.mp this
+      simp [List.getLast?_cons_cons, hv]
+
+/-- non-vacuity: pool a:2 b:2 one selection in, then `UpsertServer(a, Weight(3), Weight(-1))`: error, a now weighs 3, the
+iterator still stands behind a -/
+example :
+    let p := ((Pool.empty (κ := String)).upsert "a" (some 2)).upsert "b" (some 2)
+    let q := (p.nextServer).2
+    (q.upsertOpts "a" [3, -1]).2 = false ∧ (q.upsertOpts "a" [3, -1]).1.ws = [3, 2]
+    ∧ (q.upsertOpts "a" [3, -1]).1.it = q.it ∧ q.it ≠ It.reset := by decide
+
 end history
 
 /-- **C01 (concurrent callers)**: whatever the interleaving of callers, the combined sequence of
